@@ -576,3 +576,15 @@ V('tree-tokens-shares-children', 'depccg/tree.py', "    def tokens(self) -> List
   "    def tokens(self) -> List[Token]:\n        if self.is_leaf:\n            return self.children\n        return [leaf.children[0] for leaf in self.leaves]", ['C18'])
 V('guess-via-generator-next', 'depccg/grammar/__init__.py', "    for rule in binary_rules(x, y):\n        if rule.cat == target:\n            return rule\n",
   "    found = next((rule for rule in binary_rules(x, y) if rule.cat == target), None)\n    if found is not None:\n        return found\n", ['C12', 'C15', 'C20'], expect='silent')
+# ---------------------------------------------------------------- round 11
+V('en-np-guard-set-of-texts', 'depccg/grammar/en.py', 'if str(uni["b"]) in ("N", "NP"):', 'if uni["b"] in {"N", "NP"}:', ['C03'], count=2)
+V('en-np-guard-str-in-set', 'depccg/grammar/en.py', 'if str(uni["b"]) in ("N", "NP"):', 'if str(uni["b"]) in {"N", "NP"}:', ['C03', 'C14'], expect='silent', count=2)
+V('uni-binds-when-either-is-variable', 'depccg/unification.py', "                if x_feature.is_variable:", "                if x_feature.is_variable or y_feature.is_variable:", ['C06'])
+V('typecheck-returns-in-loop', 'depccg/parsing.py', "            )\n\n    return doc, score_results", "            )\n\n        return doc, score_results", ['C11'])
+V('filters-break-on-unknown-word', 'depccg/parsing.py', "            if token.word in category_dict:\n                tag_scores[index, category_dict[token.word]\n                           ] = large_negative_value",
+  "            if token.word not in category_dict:\n                break\n            tag_scores[index, category_dict[token.word]\n                       ] = large_negative_value", ['C17'])
+V('filters-continue-on-unknown-word', 'depccg/parsing.py', "            if token.word in category_dict:\n                tag_scores[index, category_dict[token.word]\n                           ] = large_negative_value",
+  "            if token.word not in category_dict:\n                continue\n            tag_scores[index, category_dict[token.word]\n                       ] = large_negative_value", ['C17'], expect='silent')
+V('xml-skips-falsy-fields', 'depccg/printer/xml.py', "            for k, v in token.items():\n                leaf_node.set(k, v)", "            for k, v in token.items():\n                if v:\n                    leaf_node.set(k, v)", ['C15'])
+V('x-leaf-test-or', PYX, "item.left == NULL and item.right == NULL", "item.left == NULL or item.right == NULL", ['C16', 'C02'])
+V('ja-inflection-tests-pos-list', 'depccg/printer/ja.py', "'-'.join(inflections) if len(inflections) else '_'", "'-'.join(inflections) if len(poss) else '_'", ['C20', 'C07'])
